@@ -141,6 +141,7 @@ OpResult World::op_make_face(const Op &op) {
     r.v.push_back(face ? 1 : 0);
     probe(face ? "load:accepted" : "load:rejected");
     if (face && !f.faulted) probe("load:accepted-unfaulted");
+    { bool silfprog = false; for (auto &ft : op.faults) if (ft.kind == "OVR_SILF" || ft.kind == "OVR_SILFPROG") silfprog = true; if (silfprog && face) probe("synth:loader-accepted"); }
     if (!face) {
         if (!f.release_null && !f.store->live.empty())
             violation("C16:outstanding-after-failed-ctor", strf("%zu table(s) not released when the constructor returned NULL (first: '%s', font=%s)", f.store->live.size(), tagstr(f.store->live.begin()->second.tag).c_str(), f.font.c_str()));
